@@ -118,6 +118,10 @@ RESOURCES = [
              ], ro=["id", "nested/b", "tags/*/b"], co=["created"]),
     resource([seg("collRet", "collRetId", P("int64"))], R("Ent"),
              rest(["get", "create", "batch_create", "partial_update"], return_entity=("create", "batch_create", "partial_update"))),
+    # return-entity variants of create / batch_create / partial_update on a resource WITH read-only annotations (the server
+    # registers them through other adapters than the plain variants, each with its own leading-scope offset)
+    resource([seg("collRR", "collRRId", P("int64"))], R("Ent"),
+             rest(["get", "create", "batch_create", "partial_update"], return_entity=("create", "batch_create", "partial_update")), ro=["id", "nested/b"]),
     # exclusion shapes of their own: a directive naming a whole record-typed field; create-only annotations without any read-only one
     resource([seg("collRO", "collROId", P("int64"))], R("Ent"), rest(["get", "create", "update", "partial_update"]), ro=["nested"]),
     resource([seg("collCO", "collCOId", P("int64"))], R("Ent"), rest(["get", "create", "update", "partial_update", "batch_update"]), co=["created"]),
@@ -263,7 +267,7 @@ if __name__ == "__main__":
     elif sys.argv[1] == "registry":
         # Go source: schema name -> reflect.Type of the generated type
         pkg = sys.argv[2]
-        print("// GENERATED by schemas/vt.py\npackage main\n\nimport (\n\t\"reflect\"\n\n\tvt \"%s/vt\"\n)\n\nvar registry = map[string]reflect.Type{" % pkg)
+        print("// GENERATED by schemas/vt.py\npackage main\n\nimport (\n\t\"reflect\"\n\n\t\"github.com/PapaCharlie/go-restli/v2/restlicodec\"\n\tvt \"%s/vt\"\n)\n\nvar registry = map[string]reflect.Type{" % pkg)
         for t in TYPES:
             for k, d in t.items():
                 n = d["name"]
@@ -271,6 +275,12 @@ if __name__ == "__main__":
                 elif k == "typeref": print('\t"%s": reflect.TypeOf(vt.%s(%s)),' % (n, n, '""' if d["type"] == "string" else "0"))
                 else: print('\t"%s": reflect.TypeOf(vt.%s{}),' % (n, n))
                 if k == "record": print('\t"%s_PartialUpdate": reflect.TypeOf(vt.%s_PartialUpdate{}),' % (n, n))
+        print("}")
+        print("\n// decoding through the library's generic helper (what every client method does)\nvar genericDecoders = map[string]func(restlicodec.Reader) (any, error){")
+        for t in TYPES:
+            for k, d in t.items():
+                if k == "record":
+                    print('\t"%s": func(r restlicodec.Reader) (any, error) { return restlicodec.UnmarshalRestLi[*vt.%s](r) },' % (d["name"], d["name"]))
         print("}")
         print("\n// constructors of default instances (only generated for records that declare a default themselves)\nvar defaultCtors = map[string]func() any{")
         for t in TYPES:
